@@ -206,6 +206,13 @@ class Module:
         self.path = path
         self.src = path.read_text()
         self.tree = ast.parse(self.src, filename=str(path))
+        # `def f(a, b, /, c)` read as `def f(a, b, c)`: the marker only forbids call spellings (a=.., b=..) the program then does not
+        # use; every call that is valid with the marker binds the same without it.  Rules and the inliner see ONE list of positional
+        # parameters.
+        for n in ast.walk(self.tree):
+            if isinstance(n, (ast.FunctionDef, ast.AsyncFunctionDef, ast.Lambda)) and n.args.posonlyargs:
+                n.args.args = n.args.posonlyargs + n.args.args
+                n.args.posonlyargs = []
         self.is_pkg = path.name == "__init__.py"
         self.imports: dict[str, str] = {}     # local name -> qualified dotted name
         self.classes: dict[str, Class] = {}
